@@ -135,3 +135,27 @@ Qed.
 Theorem orphan_struct_never_accepted pm provs ss s st : In s ss -> hd_error (Gen.requires s) = Some st ->
   Gen.assoc st pm = None -> Gen.has_field_of st ss = false -> forall r, Gen.pass2 pm provs ss <> OK r.
 Proof. intros Hin Hs A F r. unfold Gen.pass2. apply (orphan_never_accepted st); eauto. Qed.
+
+(* ---------------- the retrying second pass never runs out of fuel ---------------- *)
+Lemma add_fields_err st : forall fs pm provs e, Gen.add_fields pm provs st fs = Err e -> e = 1.
+Proof.
+  induction fs as [|f r IH]; intros pm provs e H; simpl in H; [discriminate|].
+  destruct (Gen.assoc (snd f) pm); [inversion H; reflexivity|]. eapply IH; eauto.
+Qed.
+Lemma pass2_loop_fuel : forall fuel pm provs ss k, k <= length ss -> length ss * (length ss + 3) + 1 <= fuel + 2 * k ->
+  Gen.pass2_loop fuel pm provs ss k <> Err 4.
+Proof.
+  induction fuel as [|fuel IH]; intros pm provs ss k Hk Hf.
+  - exfalso. nia.
+  - simpl. destruct ss as [|s r]; [discriminate|]. cbn [length] in Hk, Hf.
+    destruct (hd_error (Gen.requires s)); [|discriminate].
+    destruct (Gen.assoc n pm).
+    + destruct (Gen.add_fields pm provs n (Gen.sfields s)) as [[pm1 provs1]|e] eqn:Af.
+      * apply IH; [lia|nia].
+      * intro H. inversion H; subst e. apply add_fields_err in Af. discriminate.
+    + destruct (Gen.has_field_of n r && Nat.leb k (length r)) eqn:C; [|discriminate].
+      apply andb_true_iff in C. destruct C as (_ & C). apply Nat.leb_le in C.
+      apply IH; rewrite app_length; cbn [length]; [lia|nia].
+Qed.
+Theorem pass2_fuel_suffices pm provs ss : Gen.pass2 pm provs ss <> Err 4.
+Proof. unfold Gen.pass2. apply pass2_loop_fuel; [lia|nia]. Qed.
